@@ -123,7 +123,22 @@ impl Stream for C19 {
         // through the real pipeline (.ui output)
         let n_ui = if thorough { 6_000 } else { 600 };
         for k in 0..n_ui {
-            let s: String = match k % 6 {
+            // also through the pipeline: the empty string, blanks and other separators at the ends or inside a valid
+            // colour (the value pass has its own string handling in front of the parser)
+            let s: String = match k % 8 {
+                6 => rng.pick(&["", " ", "\t", "#", "##", "red ", " red", "Red\n", "rgb(1,2,3)", "0xff0000", "ff0000", "transparent ", " #fff", "#fff "]).to_string(),
+                7 => {
+                    let mut cs: Vec<char> = if rng.chance(1, 2) {
+                        std::iter::once('#').chain((0..*rng.pick(&[3usize, 4, 6, 8])).map(|_| *rng.pick(HEXMIX) as char)).collect()
+                    } else {
+                        rng.pick(&kws).chars().collect()
+                    };
+                    for _ in 0..(1 + rng.below(3)) {
+                        let at = rng.below(cs.len() + 1);
+                        cs.insert(at, *rng.pick(&[' ', '\t', '\n', '\u{a0}', '_', ',']));
+                    }
+                    cs.into_iter().collect()
+                }
                 0 => std::iter::once('#').chain((0..*rng.pick(&[3usize, 4, 6, 8])).map(|_| *rng.pick(HEXMIX) as char)).collect(),
                 1 => std::iter::once('#').chain((0..rng.below(11)).map(|_| *rng.pick(HEXMIX) as char)).collect(),
                 2 => { let kw = *rng.pick(&kws); random_case(&mut rng, kw) }
